@@ -42,6 +42,7 @@ def cases(tier, seed):
                                        seed=int(rng.integers(1 << 31)))
     # maps that return (a view of) their argument or a buffer of their own instead of a fresh array
     yield from _special_cases(rng, reps)
+    yield from _extra_cases(rng, reps)
 
 
 def _special_cases(rng, reps):
@@ -56,6 +57,20 @@ def _special_cases(rng, reps):
                                    seed=int(rng.integers(1 << 31)))
 
 
+def _extra_cases(rng, reps):
+    for n in range(1, 6):
+        for r in range(2 * reps):
+            for dtk in ('imag', 'real', 'complex'):
+                yield dict(kind='expm_gen', mattype='special', mapform='jordan', n=n, spectrum='separated', k=0, vreal=bool(rng.integers(2)), dt=dtk,
+                           seed=int(rng.integers(1 << 31)))
+    for n in range(2, 9):
+        for r in range(reps):
+            for vreal in (False, True):
+                yield dict(kind='eigh', mattype='special', mapform='small32', n=n, spectrum='separated', k=0, vreal=vreal, seed=int(rng.integers(1 << 31)))
+                yield dict(kind='expm_herm', mattype='special', mapform='small32', n=n, spectrum='separated', k=0, vreal=vreal, dt='imag',
+                           seed=int(rng.integers(1 << 31)))
+
+
 def run_case(c):
     rng = np.random.default_rng(c['seed'])
     fails = []
@@ -65,6 +80,7 @@ def run_case(c):
         if len(fails) < 6:
             fails.append(dict(clause=clause, detail=detail, signature=f'{fn}:{clause}' + ('' if c['kind'] == 'eigh' else f':{c["kind"][5:]}')))
     n = c['n']
+    TOL = 1e-5 if c.get('mapform') == 'small32' else globals()['TOL']
     radius = float(10.0 ** rng.uniform(-2, -0.5)) if rng.integers(5) == 0 else None
     if c.get('mapform'):
         P = h.special(rng, n, c['mapform'], c['vreal'])
